@@ -19,6 +19,8 @@ if prop.startswith("V"):
     wt = f"/tmp/wt8-{prop}"; out = f"/tmp/seedout8-{prop}"
 if prop.startswith("W"):
     wt = f"/tmp/wt9-{prop}"; out = f"/tmp/seedout9-{prop}"
+if prop.startswith("R"):
+    wt = f"/tmp/wt13-{prop}"; out = f"/tmp/seedout13-{prop}"
 if prop.startswith("Q"):
     wt = f"/tmp/wt12-{prop}"; out = f"/tmp/seedout12-{prop}"
 if prop.startswith("Z"):
